@@ -696,3 +696,20 @@ func (w *WaitGroup) Wait() {
 	s.join(g, w.vc)
 	s.commit(g)
 }
+
+// ---------------------------------------------------------------- reset hooks
+
+// Accessor files that can restore package-level state of servitor (in-flight fetch
+// bookkeeping left behind by an aborted execution ...) register here; harnesses call
+// RunResetHooks between cases. A check that does not bind such an accessor simply has
+// nothing registered, so that a refactoring of the state it touches cannot stop unrelated
+// checks from building.
+var resetHooks []func()
+
+func OnReset(f func()) { resetHooks = append(resetHooks, f) }
+
+func RunResetHooks() {
+	for _, f := range resetHooks {
+		f()
+	}
+}
